@@ -1,7 +1,1521 @@
-//! C12 harness (stub until built)
+//! C12: macro expansion and inclusion equal reference textual substitution.
+//!
+//! Drives the real `rssl_preprocess::preprocess` + `prepare_tokens` on generated macro programs and judges the
+//! result with an independent reference C preprocessor (Prosser's hide-set algorithm, restricted to the
+//! property's subset: no `#`, `##` operands are not macro names) written below.
+//!
+//! request : C12.run \t <api defines> \t <file> \t <file> ...          (first file = entry file)
+//!   api   : `-` or entries joined by `|`, entry = NAME followed by the value tokens (space separated)
+//!   file  : name|line|line...   line = `D toks` (#define) | `U toks` (#undef) | `I name` (#include "name")
+//!           | `O` (#pragma once) | `W` (#pragma warning, a directive without effect) | `T toks` (text line)
+//!   toks  : space separated: `~` one blank, `(` `)` `,` `##`, identifiers, decimal integers, `+ - * ; = { }`
+//!   a file entry `name>real|...` is served by the include handler under the real name `real` (alias)
+//! observe : `ok <token spellings separated by blanks>` | `err <PreprocessError variant>` | `panic <file>: <message>`
 use crate::util::*;
+use std::collections::{BTreeMap, BTreeSet};
+use std::rc::Rc;
 
-pub fn run(_args: &Args, _out: &mut Out) {
-    eprintln!("C12: harness not built yet");
-    std::process::exit(2);
+// ------------------------------------------------------------------------------------------------
+// request syntax
+// ------------------------------------------------------------------------------------------------
+
+#[derive(Clone, Debug, PartialEq, Eq)]
+pub enum Tok {
+    Ws,
+    LParen,
+    RParen,
+    Comma,
+    HashHash,
+    Id(String),
+    Int(String),
+    P(String),
+}
+
+const PUNCT: &[&str] = &["+", "-", "*", ";", "=", "{", "}"];
+
+fn parse_tok(s: &str) -> Option<Tok> {
+    let b = s.as_bytes();
+    Some(match s {
+        "~" => Tok::Ws,
+        "(" => Tok::LParen,
+        ")" => Tok::RParen,
+        "," => Tok::Comma,
+        "##" => Tok::HashHash,
+        _ if PUNCT.contains(&s) => Tok::P(s.to_string()),
+        _ if !b.is_empty() && b.iter().all(|c| c.is_ascii_digit()) => Tok::Int(s.to_string()),
+        _ if !b.is_empty()
+            && (b[0].is_ascii_alphabetic() || b[0] == b'_')
+            && b.iter().all(|c| c.is_ascii_alphanumeric() || *c == b'_') =>
+        {
+            Tok::Id(s.to_string())
+        }
+        _ => return None,
+    })
+}
+
+fn parse_toks(s: &str) -> Option<Vec<Tok>> {
+    s.split(' ').filter(|x| !x.is_empty()).map(parse_tok).collect()
+}
+
+fn enc_tok(t: &Tok) -> String {
+    match t {
+        Tok::Ws => "~".into(),
+        Tok::LParen => "(".into(),
+        Tok::RParen => ")".into(),
+        Tok::Comma => ",".into(),
+        Tok::HashHash => "##".into(),
+        Tok::Id(s) | Tok::Int(s) | Tok::P(s) => s.clone(),
+    }
+}
+
+fn enc_toks(ts: &[Tok]) -> String {
+    ts.iter().map(enc_tok).collect::<Vec<_>>().join(" ")
+}
+
+fn spell(t: &Tok) -> String {
+    match t {
+        Tok::Ws => " ".into(),
+        _ => enc_tok(t),
+    }
+}
+
+fn spell_all(ts: &[Tok]) -> String {
+    ts.iter().map(spell).collect()
+}
+
+#[derive(Clone, Debug, PartialEq)]
+pub enum Line {
+    Define(Vec<Tok>),
+    Undef(Vec<Tok>),
+    Include(String),
+    Once,
+    Warning,
+    Text(Vec<Tok>),
+}
+
+#[derive(Clone, Debug)]
+pub struct File {
+    name: String,
+    real: String,
+    lines: Vec<Line>,
+}
+
+#[derive(Clone, Debug)]
+pub struct Program {
+    api: Vec<(String, Vec<Tok>)>,
+    files: Vec<File>,
+}
+
+fn enc_line(l: &Line) -> String {
+    match l {
+        Line::Define(t) => format!("D {}", enc_toks(t)),
+        Line::Undef(t) => format!("U {}", enc_toks(t)),
+        Line::Include(n) => format!("I {}", n),
+        Line::Once => "O".into(),
+        Line::Warning => "W".into(),
+        Line::Text(t) => format!("T {}", enc_toks(t)),
+    }
+}
+
+fn parse_line(s: &str) -> Option<Line> {
+    let s = s.trim();
+    let (k, rest) = match s.find(' ') {
+        Some(i) => (&s[..i], s[i + 1..].trim()),
+        None => (s, ""),
+    };
+    Some(match k {
+        "D" => Line::Define(parse_toks(rest)?),
+        "U" => Line::Undef(parse_toks(rest)?),
+        "I" => Line::Include(rest.to_string()),
+        "O" => Line::Once,
+        "W" => Line::Warning,
+        "T" => Line::Text(parse_toks(rest)?),
+        _ => return None,
+    })
+}
+
+impl Program {
+    fn encode(&self) -> String {
+        let api = if self.api.is_empty() {
+            "-".to_string()
+        } else {
+            self.api
+                .iter()
+                .map(|(n, v)| format!("{} {}", n, enc_toks(v)).trim_end().to_string())
+                .collect::<Vec<_>>()
+                .join("|")
+        };
+        let mut f = vec!["C12.run".to_string(), api];
+        for file in &self.files {
+            let mut parts = vec![if file.real == file.name {
+                file.name.clone()
+            } else {
+                format!("{}>{}", file.name, file.real)
+            }];
+            parts.extend(file.lines.iter().map(enc_line));
+            f.push(parts.join("|"));
+        }
+        f.join("\t")
+    }
+
+    fn decode(req: &str) -> Option<Program> {
+        let f: Vec<&str> = req.split('\t').collect();
+        if f.len() < 3 || f[0] != "C12.run" {
+            return None;
+        }
+        let mut api = Vec::new();
+        if f[1] != "-" {
+            for e in f[1].split('|') {
+                let e = e.trim();
+                let (n, v) = match e.find(' ') {
+                    Some(i) => (&e[..i], &e[i + 1..]),
+                    None => (e, ""),
+                };
+                api.push((n.to_string(), parse_toks(v)?));
+            }
+        }
+        let mut files = Vec::new();
+        for ff in &f[2..] {
+            let mut parts = ff.split('|');
+            let head = parts.next()?.trim();
+            let (name, real) = match head.find('>') {
+                Some(i) => (&head[..i], &head[i + 1..]),
+                None => (head, head),
+            };
+            let mut lines = Vec::new();
+            for p in parts {
+                lines.push(parse_line(p)?);
+            }
+            files.push(File {
+                name: name.to_string(),
+                real: real.to_string(),
+                lines,
+            });
+        }
+        Some(Program { api, files })
+    }
+
+    fn render_file(file: &File) -> String {
+        let mut s = String::new();
+        for l in &file.lines {
+            match l {
+                Line::Define(t) => {
+                    s.push_str("#define");
+                    s.push_str(&spell_all(t));
+                }
+                Line::Undef(t) => {
+                    s.push_str("#undef");
+                    s.push_str(&spell_all(t));
+                }
+                Line::Include(n) => {
+                    s.push_str(&format!("#include \"{}\"", n));
+                }
+                Line::Once => s.push_str("#pragma once"),
+                Line::Warning => s.push_str("#pragma warning(disable : 1)"),
+                Line::Text(t) => s.push_str(&spell_all(t)),
+            }
+            s.push('\n');
+        }
+        s
+    }
+}
+
+// ------------------------------------------------------------------------------------------------
+// the real code
+// ------------------------------------------------------------------------------------------------
+
+use rssl::text::tokens::Token;
+
+fn tok_of_real(t: &Token) -> Option<Tok> {
+    Some(match t {
+        Token::Whitespace => Tok::Ws,
+        Token::LeftParen => Tok::LParen,
+        Token::RightParen => Tok::RParen,
+        Token::Comma => Tok::Comma,
+        Token::HashHash => Tok::HashHash,
+        Token::Id(id) => Tok::Id(id.0.clone()),
+        Token::LiteralInt(v) => Tok::Int(v.to_string()),
+        Token::Plus => Tok::P("+".into()),
+        Token::Minus => Tok::P("-".into()),
+        Token::Asterix => Tok::P("*".into()),
+        Token::Semicolon => Tok::P(";".into()),
+        Token::Equals => Tok::P("=".into()),
+        Token::LeftBrace => Tok::P("{".into()),
+        Token::RightBrace => Tok::P("}".into()),
+        _ => return None,
+    })
+}
+
+fn spell_real(t: &Token) -> String {
+    match tok_of_real(t) {
+        Some(Tok::Ws) => "~".into(),
+        Some(t) => enc_tok(&t),
+        None => match t {
+            Token::PlusPlus => "++".into(),
+            Token::MinusMinus => "--".into(),
+            Token::PlusEquals => "+=".into(),
+            Token::MinusEquals => "-=".into(),
+            Token::AsterixEquals => "*=".into(),
+            Token::EqualsEquals => "==".into(),
+            Token::Hash => "#".into(),
+            other => format!("?{:?}", other).replace(' ', ""),
+        },
+    }
+}
+
+/// does the rendered text of a token list lex (with the real lexer) to exactly these tokens?
+fn lex_faithful(ts: &[Tok]) -> bool {
+    // integers are compared by value, so leading zeros (octal) are not faithful
+    for t in ts {
+        if let Tok::Int(s) = t {
+            if s.len() > 1 && s.starts_with('0') {
+                return false;
+            }
+            if s.len() > 18 {
+                return false;
+            }
+        }
+    }
+    let text = spell_all(ts);
+    match rssl_preprocess::verif::lex(&text, rssl::text::SourceLocation::first(), false) {
+        Ok(real) => {
+            real.len() == ts.len()
+                && real
+                    .iter()
+                    .zip(ts.iter())
+                    .all(|(r, t)| tok_of_real(&r.0).as_ref() == Some(t))
+        }
+        Err(_) => false,
+    }
+}
+
+fn program_faithful(p: &Program) -> Result<(), String> {
+    for (n, v) in &p.api {
+        if parse_tok(n).map(|t| matches!(t, Tok::Id(_))) != Some(true) {
+            return Err(format!("api name {}", n));
+        }
+        if !lex_faithful(v) {
+            return Err(format!("api value of {}", n));
+        }
+    }
+    let mut names = BTreeSet::new();
+    for f in &p.files {
+        if !names.insert(f.name.clone()) {
+            return Err("duplicate file name".into());
+        }
+        if f.name.is_empty() || !f.name.bytes().all(|c| c.is_ascii_alphanumeric() || c == b'.' || c == b'_' || c == b'/') {
+            return Err("file name".into());
+        }
+        for l in &f.lines {
+            match l {
+                Line::Define(t) | Line::Undef(t) => {
+                    // the directive name must be separated from what follows
+                    if !matches!(t.first(), Some(Tok::Ws)) && !t.is_empty() {
+                        return Err("directive glued to its operand".into());
+                    }
+                    if !lex_faithful(t) {
+                        return Err(format!("line {}", enc_line(l)));
+                    }
+                }
+                Line::Text(t) => {
+                    if !lex_faithful(t) {
+                        return Err(format!("line {}", enc_line(l)));
+                    }
+                }
+                Line::Include(n) => {
+                    if n.is_empty() || !n.bytes().all(|c| c.is_ascii_alphanumeric() || c == b'.' || c == b'_' || c == b'/') {
+                        return Err("include name".into());
+                    }
+                }
+                _ => {}
+            }
+        }
+    }
+    Ok(())
+}
+
+struct AliasFiles(Vec<(String, String, String)>);
+
+impl rssl::text::IncludeHandler for AliasFiles {
+    fn load(&mut self, file_name: &str, _parent: &str) -> Result<rssl::text::FileData, rssl::text::IncludeError> {
+        for (name, real, data) in &self.0 {
+            if name == file_name {
+                return Ok(rssl::text::FileData {
+                    real_name: real.clone(),
+                    contents: data.clone(),
+                });
+            }
+        }
+        Err(rssl::text::IncludeError::FileNotFound)
+    }
+}
+
+fn err_name(e: &rssl_preprocess::PreprocessError) -> String {
+    use rssl_preprocess::PreprocessError as E;
+    match e {
+        E::LexerError(_) => "LexerError".into(),
+        E::UnknownCommand(_) => "UnknownCommand".into(),
+        E::InvalidInclude(_) => "InvalidInclude".into(),
+        E::InvalidDefine(_) => "InvalidDefine".into(),
+        E::InvalidUndef(_) => "InvalidUndef".into(),
+        E::MacroRequiresArguments(s) => format!("MacroRequiresArguments({})", s),
+        E::MacroArgumentsNeverEnd => "MacroArgumentsNeverEnd".into(),
+        E::MacroExpectsDifferentNumberOfArguments => "MacroExpectsDifferentNumberOfArguments".into(),
+        E::ConcatMissingLeftToken(_) => "ConcatMissingLeftToken".into(),
+        E::ConcatMissingRightToken(_) => "ConcatMissingRightToken".into(),
+        E::ConcatFailed(_) => "ConcatFailed".into(),
+        E::FailedToFindFile(_, n, _) => format!("FailedToFindFile({})", n),
+        E::FailedToParseIfCondition(_) => "FailedToParseIfCondition".into(),
+        E::InvalidIfdef(_) => "InvalidIfdef".into(),
+        E::InvalidIfndef(_) => "InvalidIfndef".into(),
+        E::InvalidElse(_) => "InvalidElse".into(),
+        E::InvalidEndIf(_) => "InvalidEndIf".into(),
+        E::ConditionChainNotFinished => "ConditionChainNotFinished".into(),
+        E::ElseNotMatched => "ElseNotMatched".into(),
+        E::EndIfNotMatched => "EndIfNotMatched".into(),
+        E::UnknownPragma(_) => "UnknownPragma".into(),
+        E::PragmaOnceInUnknownFile => "PragmaOnceInUnknownFile".into(),
+    }
+}
+
+pub enum Real {
+    Ok(Vec<String>),
+    Err(String),
+    Panic(String),
+}
+
+fn run_real(p: &Program) -> Real {
+    let files: Vec<(String, String, String)> = p
+        .files
+        .iter()
+        .map(|f| (f.name.clone(), f.real.clone(), Program::render_file(f)))
+        .collect();
+    let values: Vec<(String, String)> = p.api.iter().map(|(n, v)| (n.clone(), spell_all(v))).collect();
+    let defines: Vec<(&str, &str)> = values.iter().map(|(n, v)| (n.as_str(), v.as_str())).collect();
+    let entry = p.files[0].name.clone();
+    let r = guard(|| {
+        let mut sm = rssl::text::SourceManager::new();
+        let mut inc = AliasFiles(files);
+        match rssl_preprocess::preprocess(&entry, &mut sm, &mut inc, &defines) {
+            Ok(tokens) => {
+                let lexed = rssl_preprocess::prepare_tokens(&tokens);
+                let mut out = Vec::new();
+                for t in &lexed {
+                    if t.0 == Token::Eof {
+                        continue;
+                    }
+                    out.push(spell_real(&t.0));
+                }
+                Real::Ok(out)
+            }
+            Err(e) => Real::Err(err_name(&e)),
+        }
+    });
+    match r {
+        Ok(r) => r,
+        Err(p) => Real::Panic(p),
+    }
+}
+
+// ------------------------------------------------------------------------------------------------
+// reference C preprocessor for the subset (Prosser's algorithm with hide sets)
+// ------------------------------------------------------------------------------------------------
+
+#[derive(Clone, Debug, PartialEq, Eq)]
+enum RK {
+    Id(String),
+    Int(String),
+    P(String),
+    LParen,
+    RParen,
+    Comma,
+    Paste,
+    /// `##` outside a macro body: an ordinary token
+    HashHashText,
+    Nl,
+    Placemarker,
+}
+
+type HS = Rc<BTreeSet<String>>;
+
+#[derive(Clone, Debug)]
+struct RTok {
+    k: RK,
+    hs: HS,
+}
+
+#[derive(Clone, Debug)]
+struct RMacro {
+    params: Option<Vec<String>>,
+    body: Vec<RK>,
+}
+
+#[derive(Clone, Debug, PartialEq)]
+enum RefErr {
+    BadDefine,
+    BadUndef,
+    Arity,
+    Unterminated,
+    PasteInvalid,
+    PasteAtEdge,
+    NoFile(String),
+    IncludeDepth,
+    Steps,
+}
+
+/// the places where RSSL is known to deviate from C; used only to *classify* a disagreement: a disagreement
+/// is attributed to a set of deviations only if the reference with exactly those switched on reproduces the
+/// real output
+#[derive(Clone, Copy, Default, PartialEq, Debug)]
+struct Dev {
+    /// a function-like macro name followed by a line end before `(` is not an invocation
+    newline_blocks_call: bool,
+    /// no placemarker: `##` next to an empty argument pastes whatever tokens happen to be adjacent
+    no_placemarker: bool,
+    /// `##` in the value of an API-level define is an ordinary token
+    api_paste_inert: bool,
+    /// every argument is macro-expanded even when its parameter does not occur in the body
+    eager_args: bool,
+    /// tokens of an expanded argument lose their "painted" marks: a self-referential macro name that came out
+    /// of an argument is expanded again when the body is rescanned
+    args_unpainted: bool,
+    /// the first of two API-level defines of one name wins (a `#define` line would replace the earlier one)
+    api_dup_keeps_first: bool,
+    /// `#pragma once` is keyed by the name written in the `#include`, not by the file it resolves to
+    once_by_include_name: bool,
+}
+
+const DEV_NAMES: &[&str] = &[
+    "line-end-before-parenthesis",
+    "empty-argument-next-to-paste",
+    "paste-in-api-define",
+    "unused-argument-expanded",
+    "argument-repainted",
+    "duplicate-api-define",
+    "pragma-once-by-include-name",
+];
+
+impl Dev {
+    fn from_bits(b: u32) -> Dev {
+        Dev {
+            newline_blocks_call: b & 1 != 0,
+            no_placemarker: b & 2 != 0,
+            api_paste_inert: b & 4 != 0,
+            eager_args: b & 8 != 0,
+            args_unpainted: b & 16 != 0,
+            api_dup_keeps_first: b & 32 != 0,
+            once_by_include_name: b & 64 != 0,
+        }
+    }
+    fn names(b: u32) -> String {
+        let v: Vec<&str> = (0..DEV_NAMES.len()).filter(|i| b & (1 << i) != 0).map(|i| DEV_NAMES[i]).collect();
+        v.join("+")
+    }
+}
+
+#[derive(Default)]
+struct RefNotes {
+    /// reasons why the program lies outside the subset of the property (oracle does not apply)
+    out_of_subset: BTreeSet<String>,
+    used_placemarker: bool,
+    newline_call: bool,
+    /// a painted function-like macro name was followed by `(` (C leaves it alone for good)
+    painted_call: bool,
+    steps: u64,
+}
+
+struct Reference<'a> {
+    macros: BTreeMap<String, RMacro>,
+    dev: Dev,
+    notes: &'a mut RefNotes,
+}
+
+fn rk_spelling(k: &RK) -> String {
+    match k {
+        RK::Id(s) | RK::Int(s) | RK::P(s) => s.clone(),
+        RK::LParen => "(".into(),
+        RK::RParen => ")".into(),
+        RK::Comma => ",".into(),
+        RK::Paste | RK::HashHashText => "##".into(),
+        RK::Nl => "\n".into(),
+        RK::Placemarker => "".into(),
+    }
+}
+
+const PUNCT_MERGE: &[(&str, &str, &str)] = &[
+    ("+", "+", "++"),
+    ("-", "-", "--"),
+    ("+", "=", "+="),
+    ("-", "=", "-="),
+    ("*", "=", "*="),
+    ("=", "=", "=="),
+];
+
+impl<'a> Reference<'a> {
+    fn rk_of(t: &Tok, in_body: bool) -> Option<RK> {
+        Some(match t {
+            Tok::Ws => return None,
+            Tok::LParen => RK::LParen,
+            Tok::RParen => RK::RParen,
+            Tok::Comma => RK::Comma,
+            Tok::HashHash => {
+                if in_body {
+                    RK::Paste
+                } else {
+                    RK::HashHashText
+                }
+            }
+            Tok::Id(s) => RK::Id(s.clone()),
+            Tok::Int(s) => RK::Int(s.clone()),
+            Tok::P(s) => RK::P(s.clone()),
+        })
+    }
+
+    /// `#define` with the given tokens after the directive name
+    fn define(&mut self, toks: &[Tok], paste_active: bool) -> Result<(), RefErr> {
+        let mut i = 0;
+        while i < toks.len() && toks[i] == Tok::Ws {
+            i += 1;
+        }
+        let name = match toks.get(i) {
+            Some(Tok::Id(n)) => n.clone(),
+            _ => return Err(RefErr::BadDefine),
+        };
+        i += 1;
+        let mut params = None;
+        if toks.get(i) == Some(&Tok::LParen) {
+            // function-like: `(` directly after the name
+            i += 1;
+            let mut ps = Vec::new();
+            let mut expect_name = true;
+            loop {
+                match toks.get(i) {
+                    Some(Tok::Ws) => {}
+                    Some(Tok::RParen) => {
+                        if expect_name && !ps.is_empty() {
+                            return Err(RefErr::BadDefine);
+                        }
+                        i += 1;
+                        break;
+                    }
+                    Some(Tok::Id(p)) if expect_name => {
+                        ps.push(p.clone());
+                        expect_name = false;
+                    }
+                    Some(Tok::Comma) if !expect_name => expect_name = true,
+                    _ => return Err(RefErr::BadDefine),
+                }
+                i += 1;
+            }
+            params = Some(ps);
+        }
+        let body: Vec<RK> = toks[i..].iter().filter_map(|t| Self::rk_of(t, paste_active)).collect();
+        if matches!(body.first(), Some(RK::Paste)) || matches!(body.last(), Some(RK::Paste)) {
+            // C: `##` shall not occur at the beginning or end of a replacement list
+            self.notes.out_of_subset.insert("paste-at-body-edge".into());
+        }
+        self.macros.insert(name, RMacro { params, body });
+        Ok(())
+    }
+
+    fn undef(&mut self, toks: &[Tok]) -> Result<(), RefErr> {
+        let t: Vec<&Tok> = toks.iter().filter(|t| **t != Tok::Ws).collect();
+        match t.as_slice() {
+            [Tok::Id(n)] => {
+                self.macros.remove(n);
+                Ok(())
+            }
+            _ => Err(RefErr::BadUndef),
+        }
+    }
+
+    fn tick(&mut self) -> Result<(), RefErr> {
+        self.notes.steps += 1;
+        if self.notes.steps > 200_000 {
+            Err(RefErr::Steps)
+        } else {
+            Ok(())
+        }
+    }
+
+    /// Prosser's `expand`
+    fn expand(&mut self, mut ts: Vec<RTok>) -> Result<Vec<RTok>, RefErr> {
+        let mut out = Vec::new();
+        // `ts` is kept reversed so that the head is popped cheaply
+        ts.reverse();
+        while let Some(t) = ts.pop() {
+            self.tick()?;
+            let name = match &t.k {
+                RK::Id(n) => n.clone(),
+                _ => {
+                    out.push(t);
+                    continue;
+                }
+            };
+            if t.hs.contains(&name) {
+                if let Some(m) = self.macros.get(&name) {
+                    if m.params.is_some() {
+                        let mut j = ts.len();
+                        while j > 0 && ts[j - 1].k == RK::Nl {
+                            j -= 1;
+                        }
+                        if j > 0 && ts[j - 1].k == RK::LParen {
+                            self.notes.painted_call = true;
+                        }
+                    }
+                }
+                out.push(t);
+                continue;
+            }
+            let m = match self.macros.get(&name) {
+                Some(m) => m.clone(),
+                None => {
+                    out.push(t);
+                    continue;
+                }
+            };
+            match &m.params {
+                None => {
+                    let mut hs = (*t.hs).clone();
+                    hs.insert(name.clone());
+                    let body = self.subst(&m, &[], Rc::new(hs))?;
+                    for b in body.into_iter().rev() {
+                        ts.push(b);
+                    }
+                }
+                Some(params) => {
+                    // look for `(`, skipping line ends (C) -- or not (RSSL deviation)
+                    let mut j = ts.len();
+                    let mut saw_nl = false;
+                    while j > 0 && ts[j - 1].k == RK::Nl {
+                        saw_nl = true;
+                        j -= 1;
+                    }
+                    let is_call = j > 0 && ts[j - 1].k == RK::LParen;
+                    if is_call && saw_nl {
+                        self.notes.newline_call = true;
+                    }
+                    if !is_call || (saw_nl && self.dev.newline_blocks_call) {
+                        out.push(t);
+                        continue;
+                    }
+                    ts.truncate(j - 1); // drop line ends and `(`
+                    // collect actuals up to the matching `)`
+                    let mut depth = 0usize;
+                    let mut args: Vec<Vec<RTok>> = vec![Vec::new()];
+                    let close_hs;
+                    loop {
+                        let a = match ts.pop() {
+                            Some(a) => a,
+                            None => return Err(RefErr::Unterminated),
+                        };
+                        match a.k {
+                            RK::LParen => {
+                                depth += 1;
+                                args.last_mut().unwrap().push(a);
+                            }
+                            RK::RParen if depth == 0 => {
+                                close_hs = a.hs.clone();
+                                break;
+                            }
+                            RK::RParen => {
+                                depth -= 1;
+                                args.last_mut().unwrap().push(a);
+                            }
+                            RK::Comma if depth == 0 => args.push(Vec::new()),
+                            _ => args.last_mut().unwrap().push(a),
+                        }
+                    }
+                    let empty_single = args.len() == 1 && args[0].iter().all(|a| a.k == RK::Nl);
+                    if params.is_empty() {
+                        if !empty_single {
+                            return Err(RefErr::Arity);
+                        }
+                        args.clear();
+                    } else if args.len() != params.len() {
+                        return Err(RefErr::Arity);
+                    }
+                    let mut hs: BTreeSet<String> = t.hs.intersection(&close_hs).cloned().collect();
+                    hs.insert(name.clone());
+                    let body = self.subst(&m, &args, Rc::new(hs))?;
+                    for b in body.into_iter().rev() {
+                        ts.push(b);
+                    }
+                }
+            }
+        }
+        Ok(out)
+    }
+
+    fn is_macro_name(&self, k: &RK) -> bool {
+        matches!(k, RK::Id(n) if self.macros.contains_key(n))
+    }
+
+    /// Prosser's `subst` (no `#`): parameters next to `##` are inserted unexpanded, the others fully expanded;
+    /// then the pastes are carried out left to right; finally the hide set is added to every token.
+    fn subst(&mut self, m: &RMacro, args: &[Vec<RTok>], hs: HS) -> Result<Vec<RTok>, RefErr> {
+        let empty = Rc::new(BTreeSet::new());
+        let params: &[String] = m.params.as_deref().unwrap_or(&[]);
+        let param_index = |k: &RK| -> Option<usize> {
+            if let RK::Id(n) = k {
+                params.iter().position(|p| p == n)
+            } else {
+                None
+            }
+        };
+        if self.dev.eager_args {
+            for a in args {
+                self.expand(a.clone())?;
+            }
+        }
+        // phase 1: parameter replacement
+        let mut seq: Vec<RTok> = Vec::new();
+        let n = m.body.len();
+        for (i, k) in m.body.iter().enumerate() {
+            let next_to_paste = (i > 0 && m.body[i - 1] == RK::Paste) || (i + 1 < n && m.body[i + 1] == RK::Paste);
+            if let Some(pi) = param_index(k) {
+                let raw: Vec<RTok> = args[pi].clone();
+                if next_to_paste {
+                    if raw.iter().any(|a| self.is_macro_name(&a.k)) {
+                        self.notes.out_of_subset.insert("paste-operand-contains-macro-name".into());
+                    }
+                    let real: Vec<RTok> = raw.into_iter().filter(|a| a.k != RK::Nl || self.dev.newline_blocks_call).collect();
+                    if real.iter().all(|a| a.k == RK::Nl) {
+                        self.notes.used_placemarker = true;
+                        if !self.dev.no_placemarker {
+                            seq.push(RTok { k: RK::Placemarker, hs: empty.clone() });
+                        }
+                    } else {
+                        seq.extend(real);
+                    }
+                } else {
+                    let exp = self.expand(raw)?;
+                    if self.dev.args_unpainted {
+                        seq.extend(exp.into_iter().map(|t| RTok { k: t.k, hs: empty.clone() }));
+                    } else {
+                        seq.extend(exp);
+                    }
+                }
+            } else {
+                if next_to_paste && self.is_macro_name(k) {
+                    self.notes.out_of_subset.insert("paste-operand-is-macro-name".into());
+                }
+                seq.push(RTok { k: k.clone(), hs: empty.clone() });
+            }
+        }
+        // phase 2: pastes, left to right
+        let mut i = 0;
+        while i < seq.len() {
+            if seq[i].k != RK::Paste {
+                i += 1;
+                continue;
+            }
+            // neighbours (line ends are transparent)
+            let mut l = i;
+            let mut left = None;
+            while l > 0 {
+                l -= 1;
+                if seq[l].k != RK::Nl {
+                    left = Some(l);
+                    break;
+                }
+            }
+            let mut r = i + 1;
+            let mut right = None;
+            while r < seq.len() {
+                if seq[r].k != RK::Nl {
+                    right = Some(r);
+                    break;
+                }
+                r += 1;
+            }
+            let (l, r) = match (left, right) {
+                (Some(l), Some(r)) => (l, r),
+                _ => return Err(RefErr::PasteAtEdge),
+            };
+            let merged = self.paste(&seq[l], &seq[r])?;
+            seq.splice(l..=r, std::iter::once(merged));
+            i = l + 1;
+        }
+        // phase 3: drop placemarkers, add the hide set
+        let out = seq
+            .into_iter()
+            .filter(|t| t.k != RK::Placemarker)
+            .map(|t| {
+                let mut h = (*t.hs).clone();
+                h.extend(hs.iter().cloned());
+                RTok { k: t.k, hs: Rc::new(h) }
+            })
+            .collect();
+        Ok(out)
+    }
+
+    fn paste(&mut self, a: &RTok, b: &RTok) -> Result<RTok, RefErr> {
+        let hs: BTreeSet<String> = a.hs.intersection(&b.hs).cloned().collect();
+        let hs = Rc::new(hs);
+        let k = match (&a.k, &b.k) {
+            (RK::Placemarker, k) | (k, RK::Placemarker) => k.clone(),
+            (RK::Id(x), RK::Id(y)) | (RK::Id(x), RK::Int(y)) => RK::Id(format!("{}{}", x, y)),
+            (RK::Int(x), RK::Int(y)) => {
+                let s = format!("{}{}", x, y);
+                if s.len() > 1 && s.starts_with('0') {
+                    // an octal literal: tokens are compared by value
+                    match u64::from_str_radix(&s, 8) {
+                        Ok(v) => RK::Int(v.to_string()),
+                        Err(_) => {
+                            self.notes.out_of_subset.insert("paste-makes-malformed-octal".into());
+                            return Err(RefErr::PasteInvalid);
+                        }
+                    }
+                } else {
+                    RK::Int(s)
+                }
+            }
+            (RK::Int(_), RK::Id(_)) => {
+                self.notes.out_of_subset.insert("paste-makes-pp-number".into());
+                return Err(RefErr::PasteInvalid);
+            }
+            (RK::P(x), RK::P(y)) => match PUNCT_MERGE.iter().find(|(p, q, _)| p == x && q == y) {
+                Some((_, _, r)) => RK::P(r.to_string()),
+                None => return Err(RefErr::PasteInvalid),
+            },
+            _ => return Err(RefErr::PasteInvalid),
+        };
+        if let RK::Id(n) = &k {
+            if KEYWORDS.contains(&n.as_str()) {
+                self.notes.out_of_subset.insert("paste-makes-keyword".into());
+            }
+        }
+        Ok(RTok { k, hs })
+    }
+}
+
+const KEYWORDS: &[&str] = &[
+    "if", "else", "for", "while", "do", "switch", "return", "break", "continue", "discard", "case", "default", "struct",
+    "class", "enum", "typedef", "cbuffer", "register", "packoffset", "namespace", "true", "false", "in", "out", "inout",
+    "const", "volatile", "row_major", "column_major", "unorm", "snorm", "extern", "static", "inline", "groupshared",
+    "constexpr", "sizeof", "template", "typename", "decltype", "auto", "catch", "char", "const_cast", "delete",
+    "dynamic_cast", "explicit", "friend", "goto", "long", "mutable", "new", "operator", "private", "protected", "public",
+    "reinterpret_cast", "short", "signed", "static_cast", "this", "throw", "try", "union", "unsigned", "using", "virtual",
+    "defined",
+];
+
+struct RefRun<'a> {
+    files: &'a [File],
+    once: BTreeSet<String>,
+    pending: Vec<RTok>,
+    out: Vec<String>,
+}
+
+fn ref_flush(r: &mut Reference, st: &mut RefRun) -> Result<(), RefErr> {
+    let pending = std::mem::take(&mut st.pending);
+    let exp = r.expand(pending)?;
+    for t in exp {
+        if t.k != RK::Nl {
+            st.out.push(rk_spelling(&t.k));
+        }
+    }
+    Ok(())
+}
+
+fn ref_file(r: &mut Reference, st: &mut RefRun, idx: usize, depth: usize) -> Result<(), RefErr> {
+    if depth > 40 {
+        return Err(RefErr::IncludeDepth);
+    }
+    let empty = Rc::new(BTreeSet::new());
+    let file = &st.files[idx];
+    for line in &file.lines {
+        match line {
+            Line::Text(t) => {
+                for x in t {
+                    if let Some(k) = Reference::rk_of(x, false) {
+                        // `##` in running text is an ordinary token
+                        st.pending.push(RTok { k, hs: empty.clone() });
+                    }
+                }
+                st.pending.push(RTok { k: RK::Nl, hs: empty.clone() });
+            }
+            Line::Define(t) => {
+                ref_flush(r, st)?;
+                r.define(t, true)?;
+            }
+            Line::Undef(t) => {
+                ref_flush(r, st)?;
+                r.undef(t)?;
+            }
+            Line::Warning => ref_flush(r, st)?,
+            Line::Once => {
+                ref_flush(r, st)?;
+                // a file is identified by what the include handler says it really is
+                st.once.insert(if r.dev.once_by_include_name { file.name.clone() } else { file.real.clone() });
+            }
+            Line::Include(n) => {
+                // textual inclusion: the pending text simply continues (no barrier)
+                let target = match st.files.iter().position(|f| &f.name == n) {
+                    Some(i) => i,
+                    None => {
+                        ref_flush(r, st)?;
+                        return Err(RefErr::NoFile(n.clone()));
+                    }
+                };
+                let key = if r.dev.once_by_include_name { &st.files[target].name } else { &st.files[target].real };
+                if st.once.contains(key) {
+                    continue;
+                }
+                ref_file(r, st, target, depth + 1)?;
+            }
+        }
+    }
+    Ok(())
+}
+
+fn run_reference(p: &Program, dev: Dev, notes: &mut RefNotes) -> Result<Vec<String>, RefErr> {
+    let mut r = Reference { macros: BTreeMap::new(), dev, notes };
+    // "defines passed to compile behave exactly like #define lines placed before the first line"
+    for (n, v) in &p.api {
+        let mut line = vec![Tok::Ws, Tok::Id(n.clone()), Tok::Ws];
+        line.extend(v.iter().cloned());
+        if dev.api_dup_keeps_first && r.macros.contains_key(n) {
+            continue;
+        }
+        r.define(&line, !dev.api_paste_inert)?;
+    }
+    let mut st = RefRun { files: &p.files, once: BTreeSet::new(), pending: Vec::new(), out: Vec::new() };
+    ref_file_marked(&mut r, &mut st)?;
+    Ok(st.out)
+}
+
+fn ref_file_marked(r: &mut Reference, st: &mut RefRun) -> Result<(), RefErr> {
+    // wrap: text pastes are marked at flush time
+    ref_file(r, st, 0, 0)?;
+    ref_flush(r, st)
+}
+
+// ------------------------------------------------------------------------------------------------
+// generator
+// ------------------------------------------------------------------------------------------------
+
+const MACRO_NAMES: &[&str] = &["A", "B", "C", "D", "E", "F"];
+const PARAM_NAMES: &[&str] = &["X", "Y", "Z"];
+const PLAIN: &[&str] = &["P", "Q", "R", "AB", "P1"];
+
+struct GenMacro {
+    name: String,
+    params: Option<usize>,
+}
+
+struct Gen<'a> {
+    rng: &'a mut Rng,
+    macros: Vec<GenMacro>,
+    hist: &'a mut Hist,
+}
+
+fn push_sep(out: &mut Vec<Tok>) {
+    if !matches!(out.last(), Some(Tok::Ws) | None) {
+        out.push(Tok::Ws);
+    }
+}
+
+impl<'a> Gen<'a> {
+    fn atom(&mut self, params: usize) -> Tok {
+        let r = self.rng.below(10);
+        if r < 3 && params > 0 {
+            Tok::Id(PARAM_NAMES[self.rng.below(params as u64) as usize].to_string())
+        } else if r < 6 {
+            Tok::Int(self.rng.below(10).to_string())
+        } else if r < 9 {
+            Tok::Id(self.rng.pick(PLAIN).to_string())
+        } else {
+            Tok::P(self.rng.pick(&["+", "-", "*", ";"]).to_string())
+        }
+    }
+
+    /// an invocation (or bare mention) of macro `mi`; `budget` bounds the number of tokens produced
+    fn invocation(&mut self, mi: usize, params: usize, depth: u32, out: &mut Vec<Tok>, budget: &mut i32) {
+        let name = self.macros[mi].name.clone();
+        let np = self.macros[mi].params;
+        push_sep(out);
+        out.push(Tok::Id(name));
+        *budget -= 1;
+        let Some(np) = np else { return };
+        if self.rng.chance(1, 12) {
+            self.hist.add("site:function-name-without-arguments");
+            return;
+        }
+        if self.rng.chance(1, 6) {
+            out.push(Tok::Ws);
+        }
+        out.push(Tok::LParen);
+        let nargs = if self.rng.chance(1, 25) {
+            self.hist.add("site:wrong-arity");
+            (np + 1 + self.rng.below(2) as usize) % 4
+        } else {
+            np
+        };
+        for a in 0..nargs.max(if np == 0 { 0 } else { 1 }) {
+            if a > 0 {
+                out.push(Tok::Comma);
+                if self.rng.chance(1, 2) {
+                    out.push(Tok::Ws);
+                }
+            }
+            let elems = if self.rng.chance(1, 10) { 0 } else { 1 + self.rng.below(2) };
+            if elems == 0 {
+                self.hist.add("site:empty-argument");
+            }
+            for _ in 0..elems {
+                self.element(params, depth + 1, out, budget);
+            }
+        }
+        out.push(Tok::RParen);
+        *budget -= 2;
+    }
+
+    fn element(&mut self, params: usize, depth: u32, out: &mut Vec<Tok>, budget: &mut i32) {
+        let r = self.rng.below(10);
+        if r < 4 && depth < 3 && *budget > 2 && !self.macros.is_empty() {
+            let mi = self.rng.below(self.macros.len() as u64) as usize;
+            self.invocation(mi, params, depth, out, budget);
+        } else if r < 5 && *budget > 4 {
+            // parenthesised group with a comma inside
+            push_sep(out);
+            out.push(Tok::LParen);
+            let t = self.atom(params);
+            out.push(t);
+            out.push(Tok::Comma);
+            let t = self.atom(params);
+            out.push(t);
+            out.push(Tok::RParen);
+            *budget -= 5;
+            self.hist.add("site:nested-parentheses-with-comma");
+        } else {
+            push_sep(out);
+            let t = self.atom(params);
+            out.push(t);
+            *budget -= 1;
+        }
+    }
+
+    fn body(&mut self, params: usize, self_index: usize) -> Vec<Tok> {
+        let mut out = Vec::new();
+        let mut budget: i32 = 1 + self.rng.below(8) as i32;
+        if self.rng.chance(1, 15) {
+            return out; // empty body
+        }
+        while budget > 0 {
+            let r = self.rng.below(12);
+            if r < 4 {
+                // refer to a macro (earlier, later or itself)
+                let mi = if self.rng.chance(1, 4) { self_index } else { self.rng.below(self.macros.len() as u64) as usize };
+                self.invocation(mi, params, 1, &mut out, &mut budget);
+            } else if r < 6 && budget >= 2 {
+                // paste of two simple operands
+                push_sep(&mut out);
+                // the left operand is an identifier or a parameter (a number on the left mostly makes pp-numbers)
+                let mut a = self.paste_operand(params);
+                if matches!(a, Tok::Int(_)) && self.rng.chance(4, 5) {
+                    a = Tok::Id(self.rng.pick(PLAIN).to_string());
+                }
+                out.push(a);
+                if self.rng.chance(1, 2) {
+                    out.push(Tok::Ws);
+                }
+                out.push(Tok::HashHash);
+                if self.rng.chance(1, 2) {
+                    out.push(Tok::Ws);
+                }
+                let b = self.paste_operand(params);
+                out.push(b);
+                budget -= 3;
+                self.hist.add("body:paste");
+            } else {
+                self.element(params, 2, &mut out, &mut budget);
+            }
+        }
+        out
+    }
+
+    fn paste_operand(&mut self, params: usize) -> Tok {
+        let r = self.rng.below(10);
+        if r < 5 && params > 0 {
+            Tok::Id(PARAM_NAMES[self.rng.below(params as u64) as usize].to_string())
+        } else if r < 8 {
+            Tok::Id(self.rng.pick(PLAIN).to_string())
+        } else {
+            Tok::Int((1 + self.rng.below(9)).to_string())
+        }
+    }
+
+    fn define_line(&mut self, mi: usize) -> Vec<Tok> {
+        let name = self.macros[mi].name.clone();
+        let params = self.macros[mi].params;
+        let mut t = vec![Tok::Ws, Tok::Id(name)];
+        if let Some(n) = params {
+            t.push(Tok::LParen);
+            for i in 0..n {
+                if i > 0 {
+                    t.push(Tok::Comma);
+                    if self.rng.chance(1, 2) {
+                        t.push(Tok::Ws);
+                    }
+                }
+                t.push(Tok::Id(PARAM_NAMES[i].to_string()));
+            }
+            t.push(Tok::RParen);
+        }
+        let body = self.body(params.unwrap_or(0), mi);
+        if !body.is_empty() {
+            t.push(Tok::Ws);
+            // body starts with a separator already in most cases
+            let mut b = body;
+            if b.first() == Some(&Tok::Ws) {
+                b.remove(0);
+            }
+            t.extend(b);
+        }
+        t
+    }
+
+    fn site(&mut self) -> Vec<Vec<Tok>> {
+        // one invocation site, possibly spread over two lines
+        let mut out = Vec::new();
+        let mut budget = 14;
+        let n = 1 + self.rng.below(2);
+        for _ in 0..n {
+            self.element(0, 0, &mut out, &mut budget);
+        }
+        if out.first() == Some(&Tok::Ws) {
+            out.remove(0);
+        }
+        // split inside an argument list now and then
+        if self.rng.chance(1, 8) {
+            if let Some(pos) = out.iter().position(|t| *t == Tok::Comma) {
+                self.hist.add("site:argument-list-spans-lines");
+                let second = out.split_off(pos + 1);
+                return vec![out, second];
+            }
+        }
+        if self.rng.chance(1, 30) {
+            if let Some(pos) = out.iter().position(|t| *t == Tok::LParen) {
+                if pos > 0 {
+                    self.hist.add("site:line-end-before-parenthesis");
+                    let second = out.split_off(pos);
+                    return vec![out, second];
+                }
+            }
+        }
+        vec![out]
+    }
+}
+
+/// move an insertion point forward until it does not fall inside an argument list that spans lines
+fn safe_pos(lines: &[Line], mut at: usize) -> usize {
+    loop {
+        let mut depth: i32 = 0;
+        for l in &lines[..at] {
+            match l {
+                Line::Text(t) => {
+                    for x in t {
+                        match x {
+                            Tok::LParen => depth += 1,
+                            Tok::RParen => depth -= 1,
+                            _ => {}
+                        }
+                    }
+                }
+                _ => depth = 0,
+            }
+        }
+        if depth <= 0 || at >= lines.len() {
+            return at;
+        }
+        at += 1;
+    }
+}
+
+fn generate(rng: &mut Rng, hist: &mut Hist) -> Vec<Program> {
+    let nmac = 1 + rng.below(6) as usize;
+    let mut macros = Vec::new();
+    for i in 0..nmac {
+        let params = if rng.chance(2, 5) { None } else { Some(rng.below(4) as usize) };
+        macros.push(GenMacro { name: MACRO_NAMES[i].to_string(), params });
+    }
+    hist.add(&format!("macros:{}", nmac));
+    let mut g = Gen { rng, macros, hist };
+    // definition lines (some macros are defined twice: redefinition)
+    let mut def_lines: Vec<(usize, Vec<Tok>)> = Vec::new();
+    for mi in 0..nmac {
+        let l = g.define_line(mi);
+        def_lines.push((mi, l));
+    }
+    // file skeleton
+    let nfiles = 1 + if g.rng.chance(1, 2) { 0 } else { 1 + g.rng.below(4) as usize };
+    g.hist.add(&format!("files:{}", nfiles));
+    let mut files: Vec<File> = (0..nfiles)
+        .map(|i| {
+            let name = if i == 0 { "main".to_string() } else { format!("f{}", i) };
+            File { name: name.clone(), real: name, lines: Vec::new() }
+        })
+        .collect();
+    let mut once = vec![false; nfiles];
+    for i in 1..nfiles {
+        if g.rng.chance(1, 2) {
+            once[i] = true;
+            files[i].lines.push(Line::Once);
+            g.hist.add("file:pragma-once");
+        }
+    }
+    // distribute definitions: API candidates are the object-like ones placed first in the entry file
+    let mut leading: Vec<usize> = Vec::new();
+    for (mi, l) in &def_lines {
+        let fi = g.rng.below(nfiles as u64) as usize;
+        if fi == 0 && g.macros[*mi].params.is_none() && g.rng.chance(2, 3) {
+            leading.push(*mi);
+        } else {
+            files[fi].lines.push(Line::Define(l.clone()));
+        }
+    }
+    // sites, redefinitions, undefs
+    let nsites = 1 + g.rng.below(10) as usize;
+    g.hist.add(&format!("sites:{}", nsites));
+    for _ in 0..nsites {
+        let fi = g.rng.below(nfiles as u64) as usize;
+        for l in g.site() {
+            files[fi].lines.push(Line::Text(l));
+        }
+        if g.rng.chance(1, 6) {
+            let mi = g.rng.below(nmac as u64) as usize;
+            g.hist.add("line:undef");
+            files[fi].lines.push(Line::Undef(vec![Tok::Ws, Tok::Id(g.macros[mi].name.clone())]));
+        }
+        if g.rng.chance(1, 6) {
+            let mi = g.rng.below(nmac as u64) as usize;
+            g.hist.add("line:redefine");
+            let l = g.define_line(mi);
+            files[fi].lines.push(Line::Define(l));
+        }
+        if g.rng.chance(1, 20) {
+            files[fi].lines.push(Line::Warning);
+        }
+    }
+    // include edges: forward edges anywhere; backward edges only into pragma-once files
+    for i in 0..nfiles {
+        for j in 1..nfiles {
+            if i == j {
+                continue;
+            }
+            let forward = j > i;
+            let p = if forward { 2 } else { 1 };
+            if g.rng.chance(p, 4) && (forward || (once[j] && once[i])) {
+                let at = g.rng.below(files[i].lines.len() as u64 + 1) as usize;
+                let at = if once[i] { at.max(1) } else { at };
+                let at = safe_pos(&files[i].lines, at.min(files[i].lines.len()));
+                files[i].lines.insert(at, Line::Include(format!("f{}", j)));
+                g.hist.add(if forward { "include:forward" } else { "include:back-into-once" });
+                if g.rng.chance(1, 4) {
+                    let at2 = g.rng.below(files[i].lines.len() as u64 + 1) as usize;
+                    let at2 = if once[i] { at2.max(1) } else { at2 };
+                    let at2 = safe_pos(&files[i].lines, at2.min(files[i].lines.len()));
+                    files[i].lines.insert(at2, Line::Include(format!("f{}", j)));
+                    g.hist.add("include:repeated");
+                }
+            }
+        }
+    }
+    // every placement of the leading definitions: all in the file / all in the API list / a random split
+    let mut variants = Vec::new();
+    let placements: Vec<Vec<bool>> = if leading.is_empty() {
+        vec![vec![]]
+    } else {
+        let mut v = vec![vec![false; leading.len()], vec![true; leading.len()]];
+        if leading.len() > 1 {
+            // a proper split keeps the relative order only if the API part is a prefix
+            let k = 1 + g.rng.below(leading.len() as u64 - 1) as usize;
+            v.push((0..leading.len()).map(|i| i < k).collect());
+        }
+        v
+    };
+    for pl in placements {
+        let mut api = Vec::new();
+        let mut head = Vec::new();
+        for (k, mi) in leading.iter().enumerate() {
+            let line = &def_lines[*mi].1;
+            if pl[k] {
+                // value = the body tokens after `~ NAME ~`
+                let value: Vec<Tok> = line.iter().skip(3).cloned().collect();
+                api.push((g.macros[*mi].name.clone(), value));
+            } else {
+                head.push(Line::Define(line.clone()));
+            }
+        }
+        if !api.is_empty() && g.rng.chance(1, 25) {
+            // the same name twice in the API list
+            let n = api[0].0.clone();
+            api.push((n, vec![Tok::Int("7".into())]));
+            g.hist.add("api:duplicate-name");
+        }
+        let mut fs = files.clone();
+        if nfiles >= 2 && once[1] && g.rng.chance(1, 15) {
+            // a second include name for the same real file
+            let mut alias = fs[1].clone();
+            alias.name = "g1".to_string();
+            fs.push(alias);
+            let at = g.rng.below(fs[0].lines.len() as u64 + 1) as usize;
+            let at = safe_pos(&fs[0].lines, at);
+            fs[0].lines.insert(at, Line::Include("g1".to_string()));
+            g.hist.add("include:alias-of-once-file");
+        }
+        let mut lines = head;
+        lines.extend(fs[0].lines.clone());
+        fs[0].lines = lines;
+        g.hist.add(&format!("api-defines:{}", api.len()));
+        variants.push(Program { api, files: fs });
+    }
+    variants
+}
+
+// ------------------------------------------------------------------------------------------------
+// judging
+// ------------------------------------------------------------------------------------------------
+
+fn judge(p: &Program, out: &mut Out, hist: &mut Hist) {
+    let req = p.encode();
+    if let Err(why) = program_faithful(p) {
+        hist.add("skip:unfaithful-rendering");
+        out.case(&req, "-", &format!("SKIP:{}", why));
+        return;
+    }
+    let real = run_real(p);
+    let obs = match &real {
+        Real::Ok(t) => format!("ok {}", t.join(" ")).trim_end().to_string(),
+        Real::Err(e) => format!("err {}", e),
+        Real::Panic(m) => {
+            // `file:line: message` -> `file: message` (line numbers are not part of the observation)
+            let mut parts = m.splitn(3, ':');
+            let file = parts.next().unwrap_or("?");
+            let _line = parts.next();
+            let msg = parts.next().unwrap_or("").trim();
+            // first line of the message only (assert_eq! appends the two values)
+            let msg = msg.split("\\n").next().unwrap_or("");
+            format!("panic {}: {}", file, msg)
+        }
+    };
+    let mut notes = RefNotes::default();
+    let expected = run_reference(p, Dev::default(), &mut notes);
+    let oracle = match (&real, &expected) {
+        (Real::Panic(m), _) => {
+            hist.add("real:panic");
+            format!("FAIL:panic {}", m)
+        }
+        _ if !notes.out_of_subset.is_empty() => {
+            for r in &notes.out_of_subset {
+                hist.add(&format!("oracle-not-applicable:{}", r));
+            }
+            "ok".to_string()
+        }
+        (_, Err(RefErr::Steps)) | (_, Err(RefErr::IncludeDepth)) => {
+            hist.add("oracle-not-applicable:reference-gave-up");
+            "ok".to_string()
+        }
+        (Real::Ok(t), Ok(e)) if t == e => {
+            hist.add("agree:tokens");
+            "ok".to_string()
+        }
+        (Real::Err(_), Err(_)) => {
+            hist.add("agree:both-reject");
+            "ok".to_string()
+        }
+        _ => {
+            // disagreement with C: is it fully explained by one of the known deviations?
+            let exp_s = match &expected {
+                Ok(e) => format!("ok {}", e.join(" ")),
+                Err(e) => format!("reject {:?}", e),
+            };
+            let mut class = "unexplained".to_string();
+            // smallest set of deviations that reproduces the real output
+            let mut best: Option<u32> = None;
+            for bits in 1u32..(1 << DEV_NAMES.len()) {
+                if let Some(b) = best {
+                    if bits.count_ones() >= b.count_ones() {
+                        continue;
+                    }
+                }
+                let mut n2 = RefNotes::default();
+                let alt = run_reference(p, Dev::from_bits(bits), &mut n2);
+                let same = match (&real, &alt) {
+                    (Real::Ok(t), Ok(e)) => t == e,
+                    (Real::Err(_), Err(_)) => true,
+                    _ => false,
+                };
+                if same {
+                    best = Some(bits);
+                }
+            }
+            if let Some(b) = best {
+                class = Dev::names(b);
+            } else if notes.painted_call {
+                // C never expands a painted name again; RSSL only remembers the macro it applied last
+                // (`last_macro_function_index`) and re-enables everything else once a body has been rescanned
+                class = "painted-function-name-reinvoked".to_string();
+            } else if notes.used_placemarker {
+                // C needed a placemarker here; RSSL has none and pastes (or expands) whatever is adjacent, in
+                // the order of its rescan, which the switch above reproduces only for the simple shapes
+                class = DEV_NAMES[1].to_string();
+            } else {
+                let mut seen = BTreeSet::new();
+                if p.api.iter().any(|(n, _)| !seen.insert(n.clone())) {
+                    // two entries of one name stay in the macro list side by side: whichever is not disabled is used
+                    class = DEV_NAMES[5].to_string();
+                }
+            }
+            let mut na = false;
+            if class == "unexplained" {
+                // an unused argument that RSSL expands anyway may itself lie outside the subset
+                for i in 0..DEV_NAMES.len() {
+                    let mut n2 = RefNotes::default();
+                    let _ = run_reference(p, Dev::from_bits(1 << i), &mut n2);
+                    if !n2.out_of_subset.is_empty() {
+                        na = true;
+                    }
+                }
+            }
+            if na {
+                hist.add("oracle-not-applicable:outside-the-subset-once-a-known-deviation-is-taken");
+                "ok".to_string()
+            } else {
+                hist.add(&format!("differs-from-C:{}", class));
+                format!("FAIL:differs-from-C[{}] expected {}", class, exp_s)
+            }
+        }
+    };
+    match &real {
+        Real::Ok(t) => hist.add(&format!("real:ok-tokens-{}", (t.len() / 5 * 5).min(40))),
+        Real::Err(e) => hist.add(&format!("real:err-{}", e.split('(').next().unwrap_or(""))),
+        _ => {}
+    }
+    out.case(&req, &obs, &oracle);
+}
+
+pub fn run(args: &Args, out: &mut Out) {
+    let mut hist = Hist::default();
+    if let Some(lines) = args.request_lines() {
+        for line in lines {
+            match Program::decode(&line) {
+                Some(p) if !p.files.is_empty() => judge(&p, out, &mut hist),
+                _ => out.case(&line, "-", "SKIP:bad-request"),
+            }
+        }
+        out.stat(&format!("{{\"mode\":\"replay\",\"hist\":{}}}", hist.json()));
+        return;
+    }
+    let mut rng = Rng::new(args.seed);
+    let n = args.n.unwrap_or(if args.thorough() { 100000 } else { 2000 });
+    let mut programs = 0u64;
+    for _ in 0..n {
+        for p in generate(&mut rng, &mut hist) {
+            judge(&p, out, &mut hist);
+            programs += 1;
+        }
+    }
+    out.stat(&format!("{{\"programs\":{},\"hist\":{}}}", programs, hist.json()));
 }
